@@ -113,10 +113,13 @@ def run(rep, tier):
                 hb = F.apply(f_i2m, [mgc], {})
             except (PyExc, FoldError) as e:
                 hb = "raises %s" % e
-            okh = isinstance(hb, (bytes, bytearray)) and bytes(hb) in vers_tbl and vers_tbl[bytes(hb)] == m2v[mgc]
+            import struct as _st
+            # what a file of that release starts with: the 16-bit magic, then CR LF -- except 1.0 - 1.2, whose MAGIC was the plain long 0x999902 / 0x999903
+            real = _st.pack("<H", mgc) + (b"\x99\x00" if mgc in (39170, 39171) else b"\r\n")
+            okh = isinstance(hb, (bytes, bytearray)) and bytes(hb) == real and bytes(hb) in vers_tbl and vers_tbl[bytes(hb)] == m2v[mgc]
             nkeys += 1
             if not okh:
-                rep.ob("R1", "xdis.magics.int2magic", "magic=%d:header-bytes-are-the-table-key" % mgc, False, expected="a key of `versions` naming %r" % m2v[mgc],
+                rep.ob("R1", "xdis.magics.int2magic", "magic=%d:header-bytes-are-the-table-key" % mgc, False, expected="%r, a key of `versions` naming %r" % (real, m2v[mgc]),
                        derived=repr(hb), msg="int2magic(%d) gives %r, which the magic tables do not list for %r: int2magic is not the inverse of magic2int on the header such files really carry" % (
                            mgc, hb, m2v[mgc]))
         rep.ob("R1", "xdis.magics.int2magic", "table-magics:header-bytes-are-the-table-keys", True, derived="%d table magics examined (failures are listed individually)" % nkeys)
